@@ -203,9 +203,10 @@ impl SixelParser {
             .get_color((self.current_sixel_color) % self.current_sixel_palette.len() as u32)
             .clone();
         let x_pos = self.sixel_cursor.x;
-        let y_pos = self.sixel_cursor.y * 6;
+        // a band beyond i32::MAX pixel rows cannot be addressed: an error, like any other impossible picture size
+        let y_pos = self.sixel_cursor.y.checked_mul(6).ok_or(ParserError::InvalidPictureSize)?;
 
-        let mut last_line = y_pos + 6;
+        let mut last_line = y_pos.checked_add(6).ok_or(ParserError::InvalidPictureSize)?;
         if self.height_set && last_line > self.height() {
             last_line = self.height();
         }
